@@ -123,7 +123,7 @@ VARIANTS: list[Variant] = [
     # ---- rules added in the third session (each is the reversal of a fix or a one-instance break of the new rule)
     V("C01-f", "C01", "R1", "src/ramses_tx/address.py", "            addrs[2] not in (NON_DEV_ADDR, ALL_DEV_ADDR)\n            and addrs[0] == NON_DEV_ADDR\n            and addrs[1] == NON_DEV_ADDR\n", "            addrs[0] == NON_DEV_ADDR\n            and addrs[1] == NON_DEV_ADDR\n", "an all-blank address set passes the strict check: device_addrs[0] raises IndexError"),
     V("C02-d", "C02", "R1", "src/ramses_tx/command.py", "        payload = parts.pop()[:96]  # 48 bytes, as hex", "        payload = parts.pop()[:48]", "reversal of the F28 fix"),
-    V("C02-e", "C02", "R5", "src/ramses_tx/logger.py", "        if hasattr(rv, \"_dtm\"):  # extra is a Packet's __dict__: its timestamp is _dtm\n            ct = rv._dtm.timestamp()", "        if hasattr(rv, \"dtm\"):\n            ct = rv.dtm.timestamp()", "reversal of the F27 fix"),
+    V("C02-e", "C02", "R5", "src/ramses_tx/logger.py", "        if hasattr(rv, \"_dtm\"):  # extra is a Packet's __dict__: its timestamp is _dtm\n            try:\n                ct = rv._dtm.timestamp()", "        if hasattr(rv, \"dtm\"):\n            try:\n                ct = rv.dtm.timestamp()", "reversal of the F27 fix"),
     V("C02-f", "C02", "R5", "src/ramses_tx/logger.py", "        extra = dict(extra or {})  # work with a copy\n", "        extra = extra or {}\n", "makeRecord pops _frame from the packet's own __dict__"),
     V("C02-g", "C02", "R3", "src/ramses_tx/command.py", "        if seqn is None or seqn in (\"\", \"-\", \"--\", \"---\"):", "        if not seqn or seqn in (\"-\", \"--\", \"---\"):", "integer seqn 0 printed as ---"),
     V("C03-e", "C03", "R3", "src/ramses_tx/command.py", "{overrun:02X}", "{overrun:02d}", "a payload octet formatted in decimal"),
